@@ -16,7 +16,7 @@ RULE_SWEEP = ("; directed: one preemption of process 0 at each of its first 70 s
               "end) for the scenarios collision / first use / a directory that contains the shared --trash-dir")
 RULE = ("seeded random put worlds whose candidate trash directories are pre-populated with 0-120 entries named like the "
         "arguments (pairs, infos without payload, payloads without info incl. dangling symlinks, files vs directories), "
-        "with scripted random suffixes beyond the 100th collision")
+        "with scripted random suffixes beyond the 100th collision (the first number drawn taken, the second free, a payload without info at the third)")
 
 
 def run(tier, seed):
